@@ -513,6 +513,7 @@ type env struct {
 	errIface *types.Interface
 	parents  map[ast.Node]ast.Node
 	funcOf   map[ast.Node]*ast.FuncDecl
+	variadic map[types.Object]bool // see variadicParams (defs.go)
 }
 
 func (e *env) typeOf(x ast.Expr) types.Type {
@@ -1021,12 +1022,10 @@ func preds(e0 *env) []pred {
 	add(pred{name: "Object.IsVariadicParam", ctor: "makeObjectIsVariadicParamFilter", kinds: "slt", mk: func(v string) *filt.DExpr { return filt.Call("Object.IsVariadicParam", v) },
 		fact: func(e *env, x ast.Expr) tri {
 			o := e.objectOf(x)
-			fd := e.funcOf[x]
-			if o == nil || fd == nil {
-				return no
+			if e.variadic == nil {
+				e.variadic = variadicParams(e.t)
 			}
-			sig := e.t.Info.ObjectOf(fd.Name).Type().(*types.Signature)
-			return b2t(sig.Variadic() && sig.Params().At(sig.Params().Len()-1) == o)
+			return b2t(o != nil && e.variadic[o])
 		}})
 	for _, tag := range []string{"Ident", "BasicLit", "CallExpr", "Expr", "Stmt", "Node", "CompositeLit", "SelectorExpr", "BinaryExpr", "UnaryExpr", "StarExpr", "FuncLit",
 		"IndexExpr", "ParenExpr", "ExprStmt", "AssignStmt", "SliceExpr", "TypeAssertExpr", "ReturnStmt", "IfStmt", "BlockStmt", "DeclStmt", "GoStmt"} {
@@ -1313,6 +1312,9 @@ type ruleOut struct {
 	Refusable bool `json:"refusable,omitempty"`
 	// Const: edge family: the constant the capture's text is compared with
 	Const string `json:"const,omitempty"`
+	// ElidedNo: located families with large catalogues: the number of sites that are not listed in Obs because the fact does
+	// not hold there and the rule does not report them
+	ElidedNo int `json:"elided_no,omitempty"`
 }
 
 type rule struct {
@@ -1328,8 +1330,34 @@ func main() {
 	tmp := flag.String("tmp", "", "scratch directory")
 	only := flag.String("only", "", "restrict to predicates whose name contains this")
 	edges := flag.Bool("edges", false, "also run the Text predicates on captures at the edges of files (edges.go)")
+	families := flag.String("families", "", "comma-separated located families to run as well: tpat (tpat.go), defs (defs.go), subpat (subpat.go)")
+	famOnly := flag.Bool("famonly", false, "run the located families only")
 	flag.Parse()
 	enc := json.NewEncoder(os.Stdout)
+	runFamilies := func() {
+		for _, f := range strings.Split(*families, ",") {
+			var ros []*ruleOut
+			switch f {
+			case "tpat":
+				ros = tpatRules(*tmp, enc)
+			case "defs":
+				ros = defsRules(*tmp, enc)
+			case "subpat":
+				ros = subpatRules(*tmp, enc)
+			case "":
+			default:
+				fmt.Fprintln(os.Stderr, "unknown family", f)
+				os.Exit(3)
+			}
+			for _, ro := range ros {
+				enc.Encode(ro)
+			}
+		}
+	}
+	if *famOnly {
+		runFamilies()
+		return
+	}
 	t, err := hutil.CheckTarget(*tmp, "target/target.go", []byte(targetSource()))
 	if err != nil {
 		fmt.Fprintln(os.Stderr, err)
@@ -2042,6 +2070,7 @@ func main() {
 			enc.Encode(ro)
 		}
 	}
+	runFamilies()
 	enc.Encode(map[string]interface{}{"k": "meta", "rules": len(rules), "exprs": len(exprs), "multis": len(multis), "stmts": len(stmts) - 1, "sinks": len(sinks) + 4,
 		"gotypesalias": os.Getenv("GODEBUG")})
 }
